@@ -157,6 +157,11 @@ func init() {
 				wUpdate: 8, wMerge: 3, wInsert: 3, wDeleteOwn: 2, wRangeWrite: 1,
 				pAbort: 0.05, multiBlock: 0.4, maxCols: 4, stableRows: [2]int{1, 4}}, knownAvoid("C13", seed, run))
 			cs.Cfg.Capacity = []int{1, 64, 1024}[run%3]
+			if cs.Cfg.Prefill != nil {
+				// a block kept full (16K live rows) makes every one of the thousands of restores of a
+				// history read 16K rows: the enumeration is about the byte stream, not about row count
+				cs.Cfg.Prefill.KeepFull, cs.Cfg.Prefill.Holes = nil, nil
+			}
 			cs.Cfg.Params["tier_thorough"] = b2i(tier == "thorough")
 			return cs
 		},
@@ -278,9 +283,9 @@ func init() {
 		ID: "C12", Quick: 5000, Thorough: 150000, Level: "exploration",
 		Rule: "part A (even runs): single-client histories of InsertKey/UpsertKey/QueryKey/DeleteKey/SetKey over a 3-6 key alphabet (forcing repeats), several key operations per transaction, rollbacks, restarts; every return value is judged against the committed key map at issue time and after every step the key-map invariants (one live row per key, lookup reaches exactly that row, deleted/re-keyed keys do not resolve) are checked through QueryKey probes of the whole alphabet; part B (odd runs): 2-4 threads issue key operations concurrently (hook between the existence check and the insert), return values judged when no commit is in flight, one-live-row-per-key checked the moment each key write commits; " + ruleSeq,
 		Gen: func(seed uint64, run int, tier string) *Case {
-			p := seqProfile{minSteps: 6, maxSteps: 36, wTxn: 20, wRestart: 1,
-				wAt: 4, wRange: 1, wDelete: 3, wKey: 20,
-				pAbort: 0.15, pFailInsert: 0.1, pMerge: 0.3, maxCols: 4, multiBlock: 0.3, pKeyCol: 1}
+			p := seqProfile{minSteps: 6, maxSteps: 36, wTxn: 20, wRestart: 1, wCreateIndex: 1,
+				wAt: 4, wRange: 3, wCount: 1, wDelete: 3, wKey: 20,
+				pAbort: 0.15, pFailInsert: 0.1, pMerge: 0.3, maxCols: 4, multiBlock: 0.4, pKeyCol: 1, indexes: true, filters: true}
 			if run%2 == 1 {
 				return genConc("C12", seed, run, concProfile{minWriters: 2, maxWriters: 4, minReaders: 0, maxReaders: 1, maxTxns: 4, maxOps: 3,
 					wUpdate: 1, wRangeRead: 1, wPointRead: 1, wKey: 14,
